@@ -434,3 +434,206 @@ Proof.
   rewrite E. destruct (str_eqb (cls Q) (cls S)); [exact IH|].
   constructor; [exact HTS|]. constructor; assumption.
 Qed.
+
+(* ====================================================================================== *)
+(* the `uses` loop                                                                        *)
+(* ====================================================================================== *)
+
+Lemma other_chain_acyclic ws a j dj : ws_acyclic ws -> nth_error ws j = Some dj ->
+  exists path, lineage_t ws j = Ans (false, path) /\ other_chain ws a j = Ans (tables_along ws a path).
+Proof.
+  intros Hac Hn. destruct (Hac j dj Hn) as (path & Hl). exists path. split; [exact Hl|].
+  unfold other_chain, own_chain. destruct (Nat.eqb j a) eqn:E; [apply Nat.eqb_eq in E; subst|]; rewrite Hl; reflexivity.
+Qed.
+
+(* the hit comes from the chain of the used entity u *)
+Definition uses_hit (ws : wst) (a : nat) (us : list str) (h : table * asym) (p : str * sym) : Prop :=
+  exists u j dj path, In u us /\ find_doc ws u = Some (j, dj) /\ lineage_t ws j = Ans (false, path) /\
+    hit_at (tables_along ws a path) (class_chain (absws ws) u) h p.
+
+Lemma uses_hit_cons ws a u us h p : uses_hit ws a us h p -> uses_hit ws a (u :: us) h p.
+Proof. intros (u' & j & dj & path & Hin & H). exists u', j, dj, path. split; [right; exact Hin|exact H]. Qed.
+
+Lemma uses_corr ws a id : ws_ok ws -> ws_acyclic ws -> forall us,
+  match search_uses (absws ws) us id with
+  | Some p => exists h, uses_search ws a us id = Ans (Some h) /\ uses_hit ws a us h p
+  | None => uses_search ws a us id = Ans None
+  end.
+Proof.
+  intros Hok Hac. induction us as [|u us IH]; [reflexivity|]. cbn [search_uses uses_search].
+  assert (IH' : match search_uses (absws ws) us id with
+                | Some p => exists h, uses_search ws a us id = Ans (Some h) /\ uses_hit ws a (u :: us) h p
+                | None => uses_search ws a us id = Ans None
+                end).
+  { destruct (search_uses (absws ws) us id) as [p|]; [|exact IH]. destruct IH as (h & H1 & H2). exists h. split; [exact H1|].
+    apply uses_hit_cons. exact H2. }
+  pose proof (find_doc_corr ws u Hok) as Hc. destruct (find_doc ws u) as [[j dj]|] eqn:Ef.
+  - destruct Hc as [Hfe Hn]. rewrite Hfe. destruct (other_chain_acyclic ws a j dj Hac Hn) as (path & Hl & Ho). rewrite Ho.
+    pose proof (lookup_corr _ _ id (ws_class_chain_refines ws a u j dj path Hok Ef Hl)) as L.
+    destruct (search_wparent (class_chain (absws ws) u) id) as [p|].
+    + destruct L as (h & Hlk & Hh). rewrite Hlk. exists h. split; [reflexivity|].
+      exists u, j, dj, path. split; [left; reflexivity|]. auto.
+    + rewrite L. exact IH'.
+  - rewrite Hc. exact IH'.
+Qed.
+
+(* ====================================================================================== *)
+(* the chain a position inside method number k of document a sees                         *)
+(* ====================================================================================== *)
+
+Lemma Forall2_nth {A B} (P : A -> B -> Prop) l l' : Forall2 P l l' -> forall k x, nth_error l k = Some x ->
+  exists y, nth_error l' k = Some y /\ P x y.
+Proof.
+  induction 1 as [|a b l l' Hab _ IH]; intros k x Hk; [destruct k; discriminate|].
+  destruct k as [|k]; [inversion Hk; subst; exists b; auto|]. apply (IH k x Hk).
+Qed.
+
+Lemma method_uses t k mt : regular t -> nth_error (method_tables_of false t) k = Some mt ->
+  t_uses mt = e_uses (entity_of_tree t).
+Proof.
+  intros Hr Hk. destruct (tables_from_tree t Hr) as (_ & _ & H3). cbv zeta in H3.
+  destruct (Forall2_nth _ _ _ H3 k mt Hk) as (me & _ & _ & Hu). exact Hu.
+Qed.
+
+Definition tree_chain (ws : wst) (a : nat) (mt : table) (path : list nat) : list table := mt :: tables_along ws a path.
+Definition abs_chain_ws (ws : wst) (d : doc) (me : method) : chain := method_table (ent d) me :: class_chain (absws ws) (fst d).
+
+(* the chain [method table; root table; ancestors' root tables ...] of the services is
+   Scoping.scope_chain, table by table *)
+Theorem ws_scope_chain_refines ws a d k mt : ws_ok ws -> ws_acyclic ws -> distinct_stems ws = true ->
+  nth_error ws a = Some d -> nth_error (method_tables_of false (snd d)) k = Some mt ->
+  exists me path, nth_error (e_methods (ent d)) k = Some me /\ lineage_t ws a = Ans (false, path) /\
+    own_chain ws a = Ans (tables_along ws a path) /\
+    (exists rest, tables_along ws a path = root_table_of false (snd d) :: rest) /\
+    t_uses mt = e_uses (ent d) /\
+    find_entity (absws ws) (fst d) = Some (ent d) /\
+    Forall2 same_tableB (tree_chain ws a mt path) (abs_chain_ws ws d me) /\
+    (find_method (ent d) (me_name me) = Some me ->
+     scope_chain (absws ws) (fst d) (Some (me_name me)) = abs_chain_ws ws d me).
+Proof.
+  intros Hok Hac Hds Hn Hk. destruct (ws_ok_nth ws a d Hok Hn) as (Hreg & _ & _).
+  destruct (method_same (snd d) k mt Hreg Hk) as (me & Hme & Hm). destruct (Hac a d Hn) as (path & Hl).
+  pose proof (find_doc_self ws a d Hds Hn) as Hfd.
+  pose proof (find_doc_corr ws (fst d) Hok) as Hc. rewrite Hfd in Hc. destruct Hc as [Hfe _].
+  exists me, path. split; [exact Hme|]. split; [exact Hl|]. split; [unfold own_chain; rewrite Hl; reflexivity|].
+  split.
+  { unfold lineage_t in Hl. destruct (walk_prefix ws _ _ _ _ Hl) as (rest & ->). cbn [app]. unfold tables_along.
+    cbn [flat_map]. unfold root_of at 1. rewrite Hn, Nat.eqb_refl. cbn [negb app]. eexists. reflexivity. }
+  split; [exact (method_uses (snd d) k mt Hreg Hk)|]. split; [exact Hfe|]. split.
+  - constructor; [exact Hm|]. apply (ws_class_chain_refines ws a (fst d) a d path Hok Hfd Hl).
+  - intro Hfm. unfold scope_chain. rewrite Hfe. fold (ent d). rewrite Hfm. reflexivity.
+Qed.
+
+(* the chain the model hands to the look-ups is that chain *)
+Lemma full_chain_method ws a d steps mt path :
+  nth_error ws a = Some d -> chain_for (snd d) steps = Some [mt; root_table_of false (snd d)] ->
+  own_chain ws a = Ans (tables_along ws a path) ->
+  (exists rest, tables_along ws a path = root_table_of false (snd d) :: rest) ->
+  full_chain ws a (snd d) steps = Ans (tree_chain ws a mt path).
+Proof.
+  intros Hn Hc Ho (rest & Hr). unfold full_chain, tree_chain. rewrite Hc, Ho, Hr. reflexivity.
+Qed.
+
+(* ====================================================================================== *)
+(* (c) definition of a plain identifier, with the `uses` loop                             *)
+(* ====================================================================================== *)
+
+Definition plain_rel (ws : wst) (a : nat) (chT : list table) (chS : chain) (us : list str)
+                     (r : outcome (option (table * asym))) (s : option (str * sym)) : Prop :=
+  match s with
+  | Some p => exists h, r = Ans (Some h) /\ (hit_at chT chS h p \/ uses_hit ws a us h p)
+  | None => r = Ans None
+  end.
+
+Theorem ws_plain_refines ws a d k mt id : ws_ok ws -> ws_acyclic ws -> distinct_stems ws = true ->
+  nth_error ws a = Some d -> nth_error (method_tables_of false (snd d)) k = Some mt ->
+  exists me path, nth_error (e_methods (ent d)) k = Some me /\ lineage_t ws a = Ans (false, path) /\
+    (find_method (ent d) (me_name me) = Some me ->
+     plain_rel ws a (tree_chain ws a mt path) (scope_chain (absws ws) (fst d) (Some (me_name me))) (e_uses (ent d))
+               (wsearch ws a (tree_chain ws a mt path) id)
+               (search_w_class (absws ws) (fst d) (Some (me_name me)) true id)).
+Proof.
+  intros Hok Hac Hds Hn Hk.
+  destruct (ws_scope_chain_refines ws a d k mt Hok Hac Hds Hn Hk) as (me & path & Hme & Hl & _ & _ & Hu & Hfe & HF & Hsc).
+  exists me, path. split; [exact Hme|]. split; [exact Hl|]. intro Hfm. rewrite (Hsc Hfm).
+  unfold plain_rel, search_w_class, wsearch. rewrite (Hsc Hfm).
+  pose proof (lookup_corr _ _ id HF) as L. destruct (search_wparent (abs_chain_ws ws d me) id) as [p|].
+  - destruct L as (h & Hlk & Hh). rewrite Hlk. exists h. auto.
+  - rewrite L. unfold uses_of. rewrite Hfe. unfold tree_chain, uses_of_chain. rewrite Hu.
+    pose proof (uses_corr ws a id Hok Hac (e_uses (ent d))) as U.
+    destruct (search_uses (absws ws) (e_uses (ent d)) id) as [p|]; [|exact U].
+    destruct U as (h & H1 & H2). exists h. auto.
+Qed.
+
+(* ====================================================================================== *)
+(* (c) all declarations of a name after `<entity>.` / of a declared name                  *)
+(* ====================================================================================== *)
+
+Lemma find_doc_from_ci ws n1 n2 : upper n1 = upper n2 -> forall k, find_doc_from k ws n1 = find_doc_from k ws n2.
+Proof.
+  intro E. induction ws as [|x ws IH]; intro k; [reflexivity|]. cbn [find_doc_from]. unfold ci_eqb. rewrite E, IH. reflexivity.
+Qed.
+
+(* generate_right_hand_of_entity / generate_rhs_of_entity choose the chain Scoping.member_chain names *)
+Theorem ws_entity_chain_refines ws a d k mt en : ws_ok ws -> ws_acyclic ws -> distinct_stems ws = true ->
+  nth_error ws a = Some d -> nth_error (method_tables_of false (snd d)) k = Some mt ->
+  exists me path, nth_error (e_methods (ent d)) k = Some me /\ lineage_t ws a = Ans (false, path) /\
+    (find_method (ent d) (me_name me) = Some me ->
+     let chM := member_chain (absws ws) (fst d) (Some (me_name me)) en in
+     match find_doc ws en with
+     | None => entity_chain ws a (tree_chain ws a mt path) en = Ans None /\ chM = []
+     | Some _ => exists chE, entity_chain ws a (tree_chain ws a mt path) en = Ans (Some chE) /\ Forall2 same_tableB chE chM
+     end).
+Proof.
+  intros Hok Hac Hds Hn Hk.
+  destruct (ws_scope_chain_refines ws a d k mt Hok Hac Hds Hn Hk) as (me & path & Hme & Hl & Ho & _ & _ & Hfe & HF & Hsc).
+  exists me, path. split; [exact Hme|]. split; [exact Hl|]. intro Hfm. cbv zeta. unfold member_chain, entity_chain.
+  pose proof (find_doc_corr ws en Hok) as Hc. destruct (find_doc ws en) as [[j dj]|] eqn:Ef.
+  - destruct Hc as [Hfen Hnj]. rewrite Hfen. destruct (Nat.eqb j a) eqn:Eja.
+    + apply Nat.eqb_eq in Eja. subst j. rewrite Hn in Hnj. inversion Hnj; subst dj.
+      assert (Eci : ci_eqb en (fst d) = true).
+      { unfold find_doc in Ef. clear - Ef. revert Ef. generalize 0%nat. induction ws as [|x ws IH]; intros k0 Ef; [discriminate|].
+        cbn [find_doc_from] in Ef. destruct (ci_eqb (fst x) en) eqn:E.
+        - inversion Ef; subst. unfold ci_eqb in *. apply str_eqb_eq in E. rewrite E. apply str_eqb_refl.
+        - apply (IH _ Ef). }
+      rewrite Eci. eexists. split; [reflexivity|]. rewrite (Hsc Hfm). apply class_level_corr. exact HF.
+    + assert (Eci : ci_eqb en (fst d) = false).
+      { destruct (ci_eqb en (fst d)) eqn:E; [|reflexivity]. exfalso. unfold ci_eqb in E. apply str_eqb_eq in E.
+        pose proof (find_doc_self ws a d Hds Hn) as Hs. unfold find_doc in *. rewrite (find_doc_from_ci ws en (fst d) E 0) in Ef.
+        rewrite Hs in Ef. inversion Ef; subst. rewrite Nat.eqb_refl in Eja. discriminate. }
+      rewrite Eci. destruct (other_chain_acyclic ws a j dj Hac Hnj) as (pj & Hlj & Hoj). rewrite Hoj.
+      eexists. split; [reflexivity|]. apply (ws_class_chain_refines ws a en j dj pj Hok Ef Hlj).
+  - rewrite Hc. auto.
+Qed.
+
+(* generate_loc_link_all on corresponding chains: one hit per declaring table, the same declarations *)
+Theorem ws_member_refines chT chS id : Forall2 same_tableB chT chS ->
+  Forall2 (hit_at chT chS) (lookup_all chT id) (search_all chS id).
+Proof. exact (lookup_all_corr chT chS id). Qed.
+
+(* ====================================================================================== *)
+(* (d) completion                                                                         *)
+(* ====================================================================================== *)
+
+Theorem ws_complete_refines ws a d k mt : ws_ok ws -> ws_acyclic ws -> distinct_stems ws = true ->
+  nth_error ws a = Some d -> nth_error (method_tables_of false (snd d)) k = Some mt ->
+  exists me path, nth_error (e_methods (ent d)) k = Some me /\ lineage_t ws a = Ans (false, path) /\
+    (find_method (ent d) (me_name me) = Some me ->
+     labels_lhs (tree_chain ws a mt path) = complete_plain (absws ws) (fst d) (Some (me_name me)) /\
+     forall en,
+       match entity_chain ws a (tree_chain ws a mt path) en with
+       | Ans (Some chE) => labels_rhs chE = completion_member (absws ws) (fst d) (Some (me_name me)) en
+       | Ans None => completion_member (absws ws) (fst d) (Some (me_name me)) en = []
+       | Outside => False
+       end).
+Proof.
+  intros Hok Hac Hds Hn Hk.
+  destruct (ws_scope_chain_refines ws a d k mt Hok Hac Hds Hn Hk) as (me & path & Hme & Hl & _ & _ & _ & _ & HF & Hsc).
+  exists me, path. split; [exact Hme|]. split; [exact Hl|]. intro Hfm. split.
+  - unfold complete_plain. rewrite (Hsc Hfm). apply (labels_corr _ _ HF).
+  - intro en. destruct (ws_entity_chain_refines ws a d k mt en Hok Hac Hds Hn Hk) as (me' & path' & Hme' & Hl' & H).
+    rewrite Hme in Hme'. inversion Hme'; subst me'. rewrite Hl in Hl'. inversion Hl'; subst path'.
+    specialize (H Hfm). cbv zeta in H. unfold completion_member. destruct (find_doc ws en) as [x|].
+    + destruct H as (chE & -> & HFE). apply (labels_corr _ _ HFE).
+    + destruct H as (-> & ->). reflexivity.
+Qed.
